@@ -10,4 +10,6 @@ timeout 3000 make -j16 2>&1 | grep -v "^COQC\|^COQDEP\|WARNING conda" || true
 # every listed file must have been built
 for f in $(grep '\.v$' _CoqProject); do test -f "${f}o" || { echo "missing ${f}o" >&2; exit 1; }; done
 mkdir -p /verif/.cache/numba /verif/.work /verif/replay /verif/evidence
+# networkx (needed by quimb MPO builder paths) from the offline wheelhouse into a private dir; /venv is left untouched
+if [ ! -d /verif/.pydeps/networkx ]; then /venv/bin/pip install -q --no-index --find-links /opt/veriftools/wheels --target /verif/.pydeps networkx 2>&1 | grep -v WARNING || true; fi
 echo setup-ok
